@@ -80,7 +80,7 @@ type c10 struct{}
 
 func init() { register(c10{}) }
 
-const c10Grid = 84
+const c10Grid = 86
 
 // c10Dial names the grid slots 64..67: no seam fault, the kernel-side connect of the SACK variant fails or
 // the handshake is useless (real loopback listener / policy route of the private namespace).
@@ -90,7 +90,7 @@ func (c10) ID() string     { return "C10" }
 func (c10) Level() string  { return "fault_enumeration" }
 func (c10) QuickRuns() int { return c10Grid * 7200 }
 func (c10) Rule() string {
-	return "fault grid: for each seeded base run (every variant, 1-6 TTLs, seeded topology and timing) the slots of the grid are executed with one injected fault each: handle construction fails; 1st/2nd SetPacketFilter fails; k-th WriteTo fails (k=1..8); k-th Read fails fatally (k=1..20), returns a spurious deadline-exceeded (k=1..10) or zero bytes (k=1..10); k-th SetReadDeadline fails (k=1..8); plus 5 slots with 2-3 seeded faults, plus 3 slots in which Sink.Close, Source.Close or both report an error (each handle must still be closed exactly once), plus 5 slots in which the k-th write (k=2..6) blocks for a seeded while and then fails (the receiver keeps accepting replies meanwhile), plus 4 slots in which the k-th read returns bytes (the next reply if one is waiting) together with a fatal error in the same call, plus 4 slots in which the caller cancels the run (before its first operation, at a seeded instant while it runs, and together with a failing read: handles closed exactly once, none used after its Close, no goroutine left), plus 4 slots in which the SACK variant's real TCP connect fails or is useless (port closed, ENETUNREACH by policy route, SYN-ACK never captured, no SACK-permitted): an error, no result, handles closed exactly once. Run index i = base*84 + slot, so every slot of every base is covered systematically; non-trivial = the fault actually fired (k within the calls the run makes); distinct = distinct (variant, operation, k, class, base shape)"
+	return "fault grid: for each seeded base run (every variant, 1-6 TTLs, seeded topology and timing) the slots of the grid are executed with one injected fault each: handle construction fails; 1st/2nd SetPacketFilter fails; k-th WriteTo fails (k=1..8); k-th Read fails fatally (k=1..20), returns a spurious deadline-exceeded (k=1..10) or zero bytes (k=1..10); k-th SetReadDeadline fails (k=1..8); plus 5 slots with 2-3 seeded faults, plus 3 slots in which Sink.Close, Source.Close or both report an error (each handle must still be closed exactly once), plus 5 slots in which the k-th write (k=2..6) blocks for a seeded while and then fails (the receiver keeps accepting replies meanwhile), plus 4 slots in which the k-th read returns bytes (the next reply if one is waiting) together with a fatal error in the same call, plus 2 slots with handles that tell the run to release its reserved port (SourceSinkHandle.MustClosePort), plus 4 slots in which the caller cancels the run (before its first operation, at a seeded instant while it runs, and together with a failing read: handles closed exactly once, none used after its Close, no goroutine left), plus 4 slots in which the SACK variant's real TCP connect fails or is useless (port closed, ENETUNREACH by policy route, SYN-ACK never captured, no SACK-permitted): an error, no result, handles closed exactly once. Run index i = base*86 + slot, so every slot of every base is covered systematically; non-trivial = the fault actually fired (k within the calls the run makes); distinct = distinct (variant, operation, k, class, base shape)"
 }
 func (c10) Assumptions() []string {
 	return []string{"faults are injected at the Source/Sink seam and at handle construction; of the three real kernel calls only TCP connect is made to fail (closed port, unreachable policy route); UDP connect and TCP listen are not fault-injected", "a spurious deadline-exceeded or zero-length read may either fail the run or be skipped; anything else (partial path, success with a wrong path) is a violation"}
@@ -101,6 +101,12 @@ func c10Fault(slot int, rng *rand.Rand, timeoutMs int) []sim.Fault {
 		return []sim.Fault{{Actor: "c0", Op: op, K: k, Class: class}}
 	}
 	switch {
+	case slot >= 84:
+		// handles that ask the run to release its reserved port (slots 84, 85); the second with a failing read
+		if slot == 85 {
+			return f("read", between(rng, 1, 4), "fatal")
+		}
+		return nil
 	case slot >= 80:
 		// the k-th read hands over bytes together with a fatal error (slots 80-83)
 		return f("read", []int{1, 2, 3, 5}[slot-80]+between(rng, 0, 2), "fataldata")
@@ -201,6 +207,10 @@ func (c10) Gen(rng0 *rand.Rand, tier string, i int) *sim.Scenario {
 		}
 	}
 	sc.Note = fmt.Sprintf("base=%d slot=%d", base, slot)
+	if slot >= 84 {
+		sc.Knobs.MustClosePort = true
+		sc.Note += " mustcloseport=1"
+	}
 	if slot >= 76 && slot < 80 {
 		// "on every path": the caller's cancellation is one more way for a run to end. Before the first
 		// operation, or at a seeded instant while probes are out and the receiver is reading.
@@ -213,6 +223,7 @@ func (c10) Gen(rng0 *rand.Rand, tier string, i int) *sim.Scenario {
 		c.CancelAtUs = int64(between(crng, 1, max(span, 2)))
 		if slot == 76 {
 			c.CancelAtUs = int64(pick(crng, 1, 1, 50, 999))
+			c.PreCancelled = chance(crng, 0.5)
 		}
 		sc.Note += " cancel=1"
 	}
@@ -456,7 +467,8 @@ func (c15) Gen(rng *rand.Rand, tier string, i int) *sim.Scenario {
 		// end-to-end probes, while runs are in flight, during enrichment): an error or the full counts
 		span := int64(c.TimeoutMs)*1000 + int64(c.E2E)*300000
 		c.CancelAtUs = int64(pick(rng, 1, between(rng, 1, 2000), between(rng, 1, int(span)), between(rng, 1, int(span))))
-		if len(sc.Listeners) == 0 && (c.PublicIP || chance(rng, 0.5)) {
+		c.PreCancelled = c.CancelAtUs == 1 && i%2 == 0
+		if len(sc.Listeners) == 0 && !c.PreCancelled && (c.PublicIP || chance(rng, 0.5)) {
 			// ... while the public-IP look-up is still going on (providers that stall or fail one after
 			// the other): the look-up fails because the caller left. The same request is executed a
 			// second time without public-IP collection; collecting it must not turn success into failure.
@@ -731,6 +743,13 @@ func (c20) Gen(rng *rand.Rand, tier string, i int) *sim.Scenario {
 		c.Protocol = pick(srng, "TCP", "Tcp", "tCP")
 		spelled = " spelling=" + c.Protocol
 	}
+	if crng := rand.New(rand.NewPCG(uint64(i), 21)); fault == "none" && chance(crng, 0.08) {
+		// the caller's context is already done (or ends within the first milliseconds): a connect that
+		// fails for that reason says nothing about the target's SACK support
+		c.CancelAtUs = int64(pick(crng, 1, 1, 1, between(crng, 1, 3000)))
+		c.PreCancelled = chance(crng, 0.5)
+		spelled += " cancel=1"
+	}
 	sc := &sim.Scenario{Property: "C20", Calls: []sim.Call{c}, Listeners: []sim.Listener{lis}, Note: fmt.Sprintf("method=%q cap=%s fault=%s e2e=%d", method, capb, fault, e2e) + spelled}
 	dest := between(rng, 1, c.MaxTTL)
 	wo := &wireOpts{silentProb: 0.2, wellTimed: true}
@@ -912,6 +931,18 @@ func (c20) Check(out *sim.Outcome, ri *RunInfo) []Violation {
 		}
 	}
 	unsupported := capb == "closed" || capb == "noPermitted" || capb == "plainAck" || capb == "unreach"
+	if noteField(out.Sc.Note, "cancel") != "" && cs.CancelledAt > 0 {
+		// a cancelled request may fail or finish; what it must not do is take the cancellation for
+		// "SACK unsupported" and hand back a SYN trace, or connect under method syn
+		ri.probe("request-cancelled")
+		if method == "prefer_sack" && !unsupported && fellBack {
+			vs = append(vs, Violation{Rule: "C20.masked", Detail: fmt.Sprintf("request cancelled at %v: SACK is available (%s) and nothing was injected, yet a SYN trace was run as fallback (err=%v): the caller's cancellation was taken for 'SACK unsupported'", cs.CancelledAt, capb, cs.Err), Facts: fct})
+		}
+		if (method == "syn" || method == "") && (accepted > 0 || ackProbes["run"] > 0) {
+			vs = append(vs, Violation{Rule: "C20.conn-in-syn", Detail: fmt.Sprintf("method syn opened %d connections / sent %d SACK probes", accepted, ackProbes["run"]), Facts: fct})
+		}
+		return vs
+	}
 	switch method {
 	case "syn", "":
 		if accepted > 0 || ackProbes["run"] > 0 {
